@@ -80,10 +80,10 @@ CLAIMS = {
     "C10": dict(
         text=_T + "Narrow: decides zero-pattern dependence of imec/dag_to_icpdag, the I ⊆ [p] and undirected-edge-at-target "
              "guards, orientation agreement of the edges cleared at targets and in maximally_orient, that the chain filter "
-             "compares parent columns, that results depend on I, that I = {} degenerates to the CPDAG path, and that rule_1 / "
-             "rule_2 equal their set-theoretic definitions in every world of the two sets involved (exhaustive Venn-region tables).",
-        note="Not decided: exactness of the class and of the essential graph; Meek rules 3 and 4 (quantified over elements) and the "
-             "soundness/completeness of the rule set itself (C09).",
+             "compares parent columns, that results depend on I, that I = {} degenerates to the CPDAG path, that rule_1 / "
+             "rule_2 equal their set-theoretic definitions in every world of the two sets involved (exhaustive Venn-region tables), and "
+             "rule_3 / rule_4 role by role (witness sets as set expressions, distinctness, the non-adjacency test).",
+        note="Not decided: exactness of the class and of the essential graph; the soundness/completeness of the rule set itself (C09).",
         technique="static analysis: zero-pattern taint, guard dominance, index-orientation agreement over symbolic terms"),
     "C11": dict(
         text=_T + "Decides strict upper triangle, the same random permutation on both axes, ordering = argsort(permutation), "
